@@ -68,8 +68,9 @@ def situation(c):
     return out or ["idle_running"]
 
 
-def run_once(sc, stop_at=None, how="stop", restart_after=1.0, stop_in_errback=False, then_stop=None, commit_fail=None):
-    info = dict(step0=None, survey={}, stop_sit=None, done=False)
+def run_once(sc, stop_at=None, how="stop", restart_after=1.0, stop_in_errback=False, then_stop=None, commit_fail=None,
+             rewind_then_shutdown=False):
+    info = dict(step0=None, survey={}, stop_sit=None, done=False, second=False)
 
     def built(tr):
         info["step0"] = tr.w.clock.steps
@@ -81,6 +82,15 @@ def run_once(sc, stop_at=None, how="stop", restart_after=1.0, stop_in_errback=Fa
             for s_ in situation(c):
                 info["survey"].setdefault(s_, []).append(k)
             return
+        if rewind_then_shutdown and info["done"] and not info["second"] and len(tr.starts) >= 2 and \
+                c._start_d is not None:
+            st2 = tr.starts[-1]
+            if any(c_["idx"] > st2["idx"] and c_["ok"] for c_ in tr.calls[-4:]):
+                # the restarted consumer (sent back to an earlier offset) has processed something: shut it down too
+                info["second"] = True
+                info["second_t"] = tr.w.clock.seconds()
+                tr.do["shutdown"]("outside")
+                return
         if not info["done"] and k >= stop_at:
             info["done"] = True
             info["stop_sit"] = situation(c)
@@ -99,7 +109,8 @@ def run_once(sc, stop_at=None, how="stop", restart_after=1.0, stop_in_errback=Fa
                         if tr.consumer._start_d is not None:
                             tr.do["stop"]("after_shutdown")
                     tr.w.clock.labelled(then_stop, "call.stop_after_shutdown", cons.guard(stop_too, tr))
-            tr.w.clock.labelled(restart_after, "call.restart", cons.guard(lambda: tr.do["restart"]("next"), tr))
+            tr.w.clock.labelled(restart_after, "call.restart", cons.guard(
+                lambda: tr.do["restart"]("rewind" if rewind_then_shutdown else "next"), tr))
 
     def on_start_fired(tr, st, r):
         if stop_in_errback and isinstance(r, Failure) and tr.consumer._start_d is not None:
@@ -111,6 +122,10 @@ def run_once(sc, stop_at=None, how="stop", restart_after=1.0, stop_in_errback=Fa
         if len(tr.starts) < 2:
             return False
         st = tr.starts[-1]
+        if rewind_then_shutdown:
+            if info["second"]:
+                return tr.w.clock.seconds() > info["second_t"] + 4.0
+            return tr.w.clock.seconds() > st["t"] + 8.0
         if any(c_["idx"] > st["idx"] for c_ in tr.calls[-3:]):
             return tr.w.clock.seconds() > st["t"] + 0.5
         return tr.w.clock.seconds() > st["t"] + 8.0
@@ -367,6 +382,18 @@ def run(spec):
             v["witness"].setdefault("stop_point", dict(k=k, how="shutdown_commit_refused", code=code,
                                                        situation=tr.info["stop_sit"]))
         sits.append((k, "shutdown_commit_refused", tr.info["stop_sit"]))
+    if sc["cfg"]["group"]:
+        # shut down, start again at an EARLIER explicit offset, process some of it, shut down again: the second
+        # shutdown has to commit what the second run processed (a position below the one committed before)
+        for k, name in [(k, name) for k, name in sorted(points.items())][-2:]:
+            tr = run_once(sc, stop_at=k, how="shutdown", restart_after=0.5, rewind_then_shutdown=True)
+            tr.info["restart_after"] = 0.5
+            if tr.info["second"]:
+                res.hit("rewind_then_second_shutdown")
+            check(res, tr, "rewind_then_shutdown")
+            for v in res.violations:
+                v["witness"].setdefault("stop_point", dict(k=k, how="rewind_then_shutdown", situation=tr.info["stop_sit"]))
+            sits.append((k, "rewind_then_shutdown", tr.info["stop_sit"]))
     if any(p[0] in ("fail_sync", "fail_async") for p in sc["procs"]):
         tr = run_once(sc, stop_in_errback=True)
         check(res, tr, "stop_in_errback")
